@@ -145,7 +145,7 @@ _ENVELOPES = [
     (('C01', 'C09', 'C10', 'C11', 'C12', 'C13', 'C14', 'C15', 'C16', 'C17', 'C19', 'C20'),
      ' Session.tla: every call sequence over a per-property alphabet of call tokens (length 2 / 3) is enumerated by TLC and replayed in one process; each result must equal the result of the same token computed alone in a fresh interpreter.'),
     (('C01', 'C03', 'C09', 'C12', 'C13', 'C14', 'C15', 'C16', 'C17', 'C19'),
-     ' Carrier.tla: integer-valued records in every container (int8..uint64, python ints, float32) at the magnitude levels TLC finds admissible from the dtype ranges (the largest one per container in the quick tier); each must give the result of the same values as float64.'),
+     ' Carrier.tla: integer-valued records in every container (int8..uint64, python ints, float32) at the magnitude levels TLC finds admissible from the dtype ranges (the largest one per container in the quick tier); each must give the result of the same values as float64; and double-precision records in other memory layouts / wrappers (read-only, big-endian, negative stride, column of a 2-D array, longdouble, list, masked array). TLC also proves the wrap-around mechanism of narrow carriers exact only when the samples are promoted first.'),
     (('C01', 'C09', 'C10', 'C12', 'C13', 'C14', 'C15', 'C16', 'C17', 'C19'),
      ' Units.tla: the record multiplied by 2^e (|e| up to 900, double and single precision; TLC decides admissibility from the declared degree of the algorithm); each output must be 2^(degree*e) times the output for e = 0.'),
     (('C02', 'C13', 'C17', 'C19'),
